@@ -456,6 +456,17 @@ class ShortTimeFourierTransformFrameComputer(LinearFilterBankFrameComputer):
                 start_idx = max(0, start_idx)
             if self._real:
                 val *= 2
+                # the 0 Hz bin and, for an even DFT size, the Nyquist bin are their own
+                # mirror images: the full spectrum holds them only once
+                start_idx = self._filt_start_idxs[filt_idx]
+                if start_idx == 0 and trunc_len:
+                    val -= self._nonlin_op(half_spect[:1] * truncated_filt[:1])
+                nyq_idx = half_len - 1 - start_idx
+                if self._dft_size % 2 == 0 and 0 <= nyq_idx < trunc_len:
+                    val -= self._nonlin_op(
+                        half_spect[half_len - 1 :]
+                        * truncated_filt[nyq_idx : nyq_idx + 1]
+                    )
             if self._log:
                 val = np.log(max(val, config.LOG_FLOOR_VALUE))
             coeffs[filt_idx] = val
